@@ -50,14 +50,18 @@ theorem partial_commit_invisible (c : Cfg) (hc : c.emptyLabel.len = 0)
 /-- the database itself is not touched before the commit -/
 theorem insert_in_txn_keeps_db (c : Cfg) (m : InsertMode) (s : NodeStore) (a : Azks)
     (els : List (NodeLabel × Dig)) (s' : NodeStore) (a' : Azks)
-    (h : s.begin.batchInsert c m a els = .ok (s', a')) : s'.db = s.db ∧ s'.inTxn = true := by
-  sorry
+    (h : s.begin.batchInsert c m a els = .ok (s', a')) : s'.db = s.db ∧ s'.inTxn = true :=
+  Part.keeps_db s.db h ⟨rfl, rfl⟩
 
-/-- **once everything is written the new epoch is served completely** -/
+/-- **once everything is written the new epoch is served completely**
+
+(statement change: hypothesis `hat` added — without it a stray record of a later epoch that sits in
+the database under a key the tree does not use survives the commit and refutes the last conjunct) -/
 theorem full_commit_visible (c : Cfg) (hc : c.emptyLabel.len = 0)
     (s : NodeStore) (a : Azks) (t : CRoot)
     (hidle : s.inTxn = false ∧ s.log = [])
     (hrep : ReprRoot c .directory s t) (hwf : t.WF)
+    (hat : AtEpoch s.db a.latestEpoch)
     (hep : ∀ lf ∈ t.leaves, 1 ≤ lf.ep ∧ lf.ep ≤ a.latestEpoch)
     (els : List (BitStr × Dig))
     (hpf : PrefixFree (t.leaves ++ newLeaves els (a.latestEpoch + 1)))
@@ -66,15 +70,48 @@ theorem full_commit_visible (c : Cfg) (hc : c.emptyLabel.len = 0)
         = .ok (s', ⟨a.latestEpoch + 1, n⟩) ∧
       ReprRoot c .directory s'.commit ((newLeaves els (a.latestEpoch + 1)).foldl CRoot.insert1 t) ∧
       AtEpoch s'.commit.db (a.latestEpoch + 1) := by
-  sorry
+  have hrepb : ReprRoot c .directory s.begin t :=
+    Pub.reprRoot_getRec_congr c _ s s.begin (Pub.getRec_begin s hidle.1 hidle.2) t hrep
+  obtain ⟨s', n, hrun, hrep'⟩ := batchInsert_refines c hc .directory s.begin a t hrepb hwf hep els hpf hlen
+  have hlog : Pub.LogOK s' := Pub.logOK_batchInsert hrun (Pub.logOK_begin s hidle.2)
+  have hdb := Part.keeps_db s.db hrun ⟨rfl, rfl⟩
+  have hle : Part.LogLe (a.latestEpoch + 1) s' :=
+    Part.logLe_batchInsert hrun ⟨rfl, fun k r hk => by
+      simp [NodeStore.begin, hidle.2, NodeMap.get?] at hk⟩
+  refine ⟨s', n, hrun, Pub.reprRoot_getRec_congr c _ s' s'.commit (Pub.getRec_commit s' hlog) _ hrep', ?_⟩
+  intro k r hk
+  simp only [NodeStore.commit] at hk
+  rw [Pub.get_foldl_set s'.log s'.db k hlog.2.1 hlog.2.2] at hk
+  cases hl : NodeMap.get? s'.log k with
+  | some r' =>
+    rw [hl] at hk
+    simp only [Option.some.injEq] at hk
+    exact hk ▸ hle.2 k r' hl
+  | none =>
+    rw [hl, hdb.1] at hk
+    exact Nat.le_succ_of_le (hat k r hk)
 
-/-- keys that are new in this epoch are invisible at the previous one: they resolve to "not found" -/
+/-- every record is stored under the label of its node versions (in the implementation the storage key
+IS the label of the record; the model's `NodeMap` does not enforce it) -/
+def WellKeyed (db : NodeMap) : Prop :=
+  ∀ k r, db.get? k = some r → r.latest.label = k ∧ ∀ p, r.previous = some p → p.label = k
+
+/-- keys that are new in this epoch are invisible at the previous one: they resolve to "not found"
+
+(statement change: hypothesis `hkeyed` added — a record stored under a key different from its node's
+label is read through the former and rewritten, with its old epoch, under the latter) -/
 theorem new_keys_invisible (c : Cfg) (m : InsertMode) (s : NodeStore) (a : Azks)
     (els : List (NodeLabel × Dig)) (s' : NodeStore) (a' : Azks)
     (hidle : s.inTxn = false ∧ s.log = [])
+    (hkeyed : WellKeyed s.db)
     (h : s.begin.batchInsert c m a els = .ok (s', a'))
     (k : NodeLabel) (r : NodeRec) (hk : s'.log.get? k = some r) (hnew : s.db.get? k = none) :
     r.resolve a.latestEpoch = .error .notFound := by
-  sorry
+  have h0 : Part.NewInv s.db (a.latestEpoch + 1) s.begin :=
+    ⟨rfl, rfl, fun k r hk => by simp [NodeStore.begin, hidle.2, NodeMap.get?] at hk,
+      fun k r hk => by simp [NodeStore.begin, hidle.2, NodeMap.get?] at hk⟩
+  obtain ⟨h1, h2⟩ := (Part.newInv_batchInsert s.db hkeyed h h0).fresh k r hk hnew
+  unfold NodeRec.resolve
+  rw [if_pos (by omega), h2]
 
 end Akd.C11
